@@ -194,6 +194,26 @@ def execute(sc, ctx):
             streams += 1
             if got != hashlib.md5(data).hexdigest():  # noqa: S324
                 ctx.violate("dos2unix-binary-touched", "binary", f"len={len(data)}")
+    # ---- route 3b: hash_file() on a real file: without info (a progress callback gets attached)
+    # and with caller-supplied info that carries the plain md5 (as index-backed filesystems do)
+    if len(data) <= 2**20:
+        import hashlib as _hl
+
+        from dvc_data.hashfile.hash import hash_file
+
+        fp = w.p("hf", "file")
+        w.raw_write(fp, data)
+        for name in ("md5", "md5-dos2unix", "sha256"):
+            _, hi = hash_file(fp, w.localfs, name)
+            streams += 1
+            if hi.name != name or hi.value != model.ref_digest(name, data):
+                ctx.violate("hash_file-digest-wrong", f"{name}:no-info", f"len={len(data)}")
+        info = dict(w.localfs.info(fp))
+        info["md5"] = _hl.md5(data).hexdigest()  # noqa: S324
+        _, hi = hash_file(fp, w.localfs, "md5-dos2unix", info=info)
+        streams += 1
+        if hi.value != model.ref_digest("md5-dos2unix", data):
+            ctx.violate("hash_file-digest-wrong", "md5-dos2unix:info-carries-plain-md5", f"len={len(data)}")
     # ---- route 4: upload staging: the streamed digest names the object -----
     srcfs = w.remote_fs("src")
     srcfs.raw_put("/src/file", data)
